@@ -251,6 +251,7 @@ func parseMultiarch(input *input, possi *Possibility) error {
 
 /* */
 func parsePossibilityControllers(input *input, possi *Possibility) error {
+	sawArchs := len(possi.Architectures.Architectures) != 0
 	for {
 		eatWhitespace(input) /* Clean out leading whitespace */
 		peek := input.Peek()
@@ -269,11 +270,13 @@ func parsePossibilityControllers(input *input, possi *Possibility) error {
 			}
 			continue
 		case '[':
-			if len(possi.Architectures.Architectures) != 0 {
+			if sawArchs || len(possi.Architectures.Architectures) != 0 {
+				/* an empty [] is a list, too */
 				return errors.New(
 					"Only one Arch relation per Possibility, please!",
 				)
 			}
+			sawArchs = true
 			err := parsePossibilityArchs(input, possi)
 			if err != nil {
 				return err
